@@ -645,7 +645,7 @@ def _worker(task):
                 part["writes"] += 1
             key = tuple(hist[:out.steps]) + (("write-read",) if out.wr_done else ())
             if out.nontrivial:
-                part["distinct"].add(hashlib.md5(repr(key).encode()).hexdigest())
+                part["distinct"].add(hashlib.md5(repr(key).encode()).digest()[:8])
             for name, ok in out.monitors:
                 m = part["monitors"].setdefault(name, [0, 0])
                 m[0] += 1
